@@ -17,6 +17,7 @@ import (
 	"time"
 
 	"verifmc/core"
+	"verifmc/vorder"
 
 	"github.com/LemoFoundationLtd/lemochain-core/store"
 )
@@ -215,6 +216,15 @@ func flushStats() {
 	d := os.Getenv("C10_STATS")
 	if d == "" {
 		return
+	}
+	for i, n := range vorder.Loops {
+		if n > 0 {
+			k := fmt.Sprintf("map_loops_under_controlled_order_with_%d_keys", i)
+			if i == 4 {
+				k = "map_loops_under_controlled_order_with_4_or_more_keys"
+			}
+			stats[k] = n
+		}
 	}
 	b, _ := json.Marshal(stats)
 	tmp := filepath.Join(d, fmt.Sprintf(".%d.tmp", os.Getpid()))
